@@ -38,7 +38,9 @@ impl Read for Flaky {
     fn read(&mut self, buf: &mut [u8]) -> std::io::Result<usize> {
         if self.f.armed.load(Ordering::SeqCst) {
             let k = self.f.reads.fetch_add(1, Ordering::SeqCst) + 1;
-            if self.f.read_at != 0 && k == self.f.read_at {
+            // read_at = k: the k-th read fails once; read_at = 1_000_000 + k: every read from the k-th on fails
+            let hit = if self.f.read_at >= 1_000_000 { k >= self.f.read_at - 1_000_000 } else { k == self.f.read_at };
+            if self.f.read_at != 0 && hit {
                 self.f.read_failed.fetch_add(1, Ordering::SeqCst);
                 return Err(std::io::Error::new(std::io::ErrorKind::Other, "injected read failure"));
             }
@@ -93,8 +95,11 @@ pub fn run(t: &[&str], o: &mut Oracle) -> String {
         _ => return "bad-op".into(),
     };
     let faults = Arc::new(Faults { seek_from, seek_count, read_at, ..Default::default() });
+    let mut pq = std::collections::BTreeMap::new();
+    pq.insert(0u32, flute::sender::PriorityQueue::new(1));
     let config = Config {
         fdt_publish_mode: if full { FDTPublishMode::FullFDT } else { FDTPublishMode::ObjectsBeingTransferred },
+        priority_queues: pq,
         fdt_duration: Duration::from_secs(3600),
         fdt_carousel_mode: CarouselRepeatMode::DelayBetweenTransfers(Duration::from_secs(3600)),
         ..Default::default()
@@ -131,9 +136,12 @@ pub fn run(t: &[&str], o: &mut Oracle) -> String {
     let mut seen_events = 0usize;
     // (nb_transfers, attempts finished, complete transfers on the wire) right before the removal
     let mut nb_transfers_live: Option<(u64, u64, u64)> = None;
+    let mut max_starts_per_call = 0u64;
     let mut sync = |sender: &Sender, attempts: &mut Vec<u64>, open: &mut bool, o: &mut Oracle| {
         let _ = sender;
         let evs = rec.0.lock().unwrap();
+        let starts_now = evs.iter().skip(seen_events).filter(|(st, et)| *st && *et == toi).count() as u64;
+        max_starts_per_call = max_starts_per_call.max(starts_now);
         for (start, etoi) in evs.iter().skip(seen_events) {
             if *etoi != toi {
                 continue;
@@ -196,14 +204,23 @@ pub fn run(t: &[&str], o: &mut Oracle) -> String {
     if !carousel && attempts.len() as u64 != maxc.max(1) as u64 {
         o.fail("C12:transfer-count", &format!("{} transfer attempts, max_transfer_count {}; {}", attempts.len(), maxc, desc));
     }
-    if empty != seek_failed {
-        o.fail("C12:empty-transfer", &format!("{} transfers without packet, {} injected seek failures; {}", empty, seek_failed, desc));
+    // a transfer without packet: the open failed (seek), or the source failed at the first read of the transfer
+    // (since /repo 6808824 the encoder then ends the transfer without packet instead of sending a bogus empty one)
+    if empty < seek_failed || empty > seek_failed + read_failed {
+        o.fail("C12:empty-transfer", &format!("{} transfers without packet, {} injected seek failures, {} injected read failures; {}", empty, seek_failed, read_failed, desc));
+    }
+    if max_starts_per_call > 2 {
+        o.fail(
+            "C12:read-loops-over-failing-transfers",
+            &format!("one Sender::read call started {} transfers of the object (each ended at once because its source fails): the loop of SenderSession::run runs through all remaining transfers before returning; {}", max_starts_per_call, desc.chars().take(300).collect::<String>()),
+        );
     }
     // the last attempt of a carousel object may be cut by the removal (forced stop): allowed
     let cut_by_removal = (carousel && attempts.last().map(|a| *a != 0 && *a != n_sym).unwrap_or(false)) as u64;
     let truncated = partial - cut_by_removal.min(partial);
+    let read_failed_left = read_failed.saturating_sub(empty.saturating_sub(seek_failed));
     if truncated > 0 {
-        if truncated <= read_failed {
+        if truncated <= read_failed_left.max(read_failed.min(1)) {
             o.fail(
                 "C12:truncated-transfer-on-source-read-error",
                 &format!("a transfer ended after fewer packets than the object has (and was counted as a transfer); {}", desc),
